@@ -3,6 +3,7 @@ package main
 
 import (
 	"crypto/sha1"
+	_ "embed"
 	"encoding/hex"
 	"encoding/json"
 	"fmt"
@@ -450,6 +451,19 @@ func runRule(c *Ctx, r *Rule) (obs []*Obligation) {
 	if len(c.obs) == 0 {
 		c.bad("census:empty", token.NoPos, "rule %s produced no obligations (vacuous)", r.Name)
 	}
+	// every clause that produces obligations on the reference tree must produce some on this tree too: a clause
+	// that no longer finds its subject fails the check instead of passing vacuously
+	have := map[string]bool{}
+	for _, o := range c.obs {
+		have[keyClass(o.Key)] = true
+	}
+	if !have["checker-panic"] {
+		for _, cl := range expectedClasses()[r.Name] {
+			if !have[cl] {
+				c.undecided("clause-missing:"+cl, token.NoPos, "rule %s produced no obligation of class %q on this tree although it does on the reference tree: the clause no longer finds its subject in the code, and a vacuous pass is not accepted", r.Name, cl)
+			}
+		}
+	}
 	obs = c.obs
 	c.obs = nil
 	// obligations keys must be unique within a rule; disambiguate duplicates deterministically
@@ -461,6 +475,30 @@ func runRule(c *Ctx, r *Rule) (obs []*Obligation) {
 		}
 	}
 	return obs
+}
+
+// keyClass: the clause an obligation key belongs to (its first segment).
+func keyClass(key string) string {
+	if i := strings.Index(key, ":"); i >= 0 {
+		return key[:i]
+	}
+	if i := strings.Index(key, "#"); i >= 0 {
+		return key[:i]
+	}
+	return key
+}
+
+//go:embed expected_classes.json
+var expectedClassesJSON []byte
+
+var expectedClassesMemo map[string][]string
+
+func expectedClasses() map[string][]string {
+	if expectedClassesMemo == nil {
+		expectedClassesMemo = map[string][]string{}
+		_ = json.Unmarshal(expectedClassesJSON, &expectedClassesMemo)
+	}
+	return expectedClassesMemo
 }
 
 // ---------------------------------------------------------------- known findings
